@@ -24,7 +24,8 @@ import (
 // ---------------------------------------------------------------- observation
 
 type input struct {
-	Kind string `json:"kind"` // "str" | "parts"
+	Kind string `json:"kind"` // "str" | "parts" | "route"
+	EP   int    `json:"endpoint,omitempty"` // index into endpoints (route)
 	Hex  string `json:"hex,omitempty"`
 	H    string `json:"h,omitempty"` // hex
 	R    string `json:"r,omitempty"`
@@ -594,6 +595,18 @@ func main() {
 			Tags: map[string]any{"class": "parts/" + origin + "/" + outcome, "origin": origin, "outcome": outcome}},
 			[]string{"kind:parts", "origin:" + origin, "parts:" + outcome, "parts_reparse:" + o.Rel.State})
 	}
+	addRouteEP := func(ep int, w, origin string) {
+		coq, o := runRoute(ep, w)
+		in := input{Kind: "route", Hex: hex.EncodeToString([]byte(w)), EP: ep}
+		emit(hx.Case{Coq: coq, Desc: map[string]any{"input": in, "text": printable(w), "observed": o, "origin": origin},
+			Tags: map[string]any{"class": "route/" + endpoints[ep].Pos + "/" + endpoints[ep].Name + "/" + o.Accepted, "origin": origin, "outcome": o.Accepted}},
+			[]string{"kind:route", "route_pos:" + endpoints[ep].Pos, "route_accepted:" + endpoints[ep].Pos + ":" + o.Accepted, "origin:" + origin})
+	}
+	addRoute := func(w, origin string) {
+		for ep := range endpoints {
+			addRouteEP(ep, w, origin)
+		}
+	}
 	runInput := func(in input, origin string) {
 		dec := func(h string) string {
 			b, err := hex.DecodeString(h)
@@ -603,6 +616,8 @@ func main() {
 			return string(b)
 		}
 		switch in.Kind {
+		case "route":
+			addRouteEP(in.EP, dec(in.Hex), origin)
 		case "parts":
 			addParts(dec(in.H), dec(in.R), dec(in.T), dec(in.D), origin)
 		default:
@@ -783,6 +798,50 @@ func main() {
 			}
 			addParts(pick(rng, "", "h.io", s), pick(rng, "r", s[:k]), pick(rng, "", s[k:], "t"), pick(rng, "", s), "unstructured")
 		}
+	}
+	// 7. non-ASCII runes whose code point, truncated to a byte, is a letter / digit / '_' / '.' / '-':
+	// a byte-wise scan rejects them, a rune-wise scan that narrows the rune would not
+	for _, lowb := range []byte("azAZ09_.-") {
+		for _, hi := range []rune{0x100, 0x200, 0x2000, 0x10000} {
+			ru := string(hi + rune(lowb))
+			for _, t := range []string{"v1" + ru, ru + "v1", "v" + ru + "1", ru} {
+				addStr(t, "unicode")
+				addStr("reg.io/r:"+t, "unicode")
+				addStr("reg.io/"+t, "unicode")
+				addStr(t+".io/r", "unicode")
+				addParts("reg.io", "r", t, "", "unicode")
+				addParts("reg.io", t, "", "", "unicode")
+				addRoute(t, "unicode")
+			}
+		}
+	}
+
+	// 8. routing: strings in every URL position where the router applies a predicate
+	for _, s := range fixed {
+		addRoute(s, "fixed")
+	}
+	for _, s := range []string{okRepo, okRepo2, okDigest, "sometag", "a/blobs/uploads", "a/manifests/b", "a/tags/list", "a/referrers/x",
+		"blobs", "manifests", "uploads", "tags", "referrers", "v2", "_catalog", "a/b/", "/a/b", "a//b", "../a", "a/../b", ".", "..", "%2e", "a%2fb", "a?b", "a#b", "a b", "A/b", "a/B"} {
+		addRoute(s, "routing-words")
+	}
+	nr := 250
+	if cfg.Thorough() {
+		nr = 3000
+	}
+	for i := 0; i < nr; i++ {
+		okOnly := rng.Intn(3) > 0
+		var w string
+		switch i % 4 {
+		case 0:
+			w = genRepo(rng, okOnly)
+		case 1:
+			w = genTag(rng, okOnly)
+		case 2:
+			w = genDigest(rng, okOnly)
+		default:
+			w = mutate(rng, pick(rng, genRepo(rng, true), genTag(rng, true), genDigest(rng, true)))
+		}
+		addRoute(w, "route-grammar")
 	}
 	flush(nCorpus)
 }
